@@ -130,24 +130,34 @@ def cbmc_cmd(u, extra=()):
     return cmd
 
 
-def parse_results(js):
+def parse_results(txt):
+    """parse cbmc's plain-text result block (the JSON UI embeds a full trace per failed property,
+    including the expected-to-fail REACH witnesses: hundreds of MB per unit)"""
     res, status, msgs = [], None, []
-    try:
-        d = json.loads(js)
-    except Exception:
-        return None, None, ["unparseable cbmc json"]
-    for m in d:
-        if isinstance(m, dict):
-            if "result" in m:
-                for r in m["result"]:
-                    sl = r.get("sourceLocation", {})
-                    res.append({"id": r.get("property"), "desc": r.get("description", ""), "status": r.get("status"),
-                                "file": sl.get("file", ""), "function": sl.get("function", ""), "line": sl.get("line", ""),
-                                "class": sl.get("propertyClass", "")})
-            if "cProverStatus" in m:
-                status = m["cProverStatus"]
-            if m.get("messageType") in ("ERROR", "WARNING"):
-                msgs.append(m.get("messageText", ""))
+    if "** Results:" not in txt:
+        if "VERIFICATION SUCCESSFUL" in txt:
+            return [], "success", []
+        return None, None, [txt[-800:]]
+    body = txt[txt.index("** Results:"):]
+    cur_file, cur_fn = "", ""
+    for line in body.splitlines():
+        m = re.match(r"^(\S.*) function (\S+)$", line)
+        if m and not line.startswith("["):
+            cur_file, cur_fn = m.group(1), m.group(2)
+            continue
+        m = re.match(r"^\[([^\]]+)\] (?:line (\d+) )?(.*): (SUCCESS|FAILURE|UNKNOWN|ERROR)$", line)
+        if m:
+            pid = m.group(1)
+            cls = "assertion" if ".assertion." in pid else pid.split(".")[-2] if pid.count(".") >= 2 else ""
+            res.append({"id": pid, "desc": m.group(3), "status": m.group(4), "file": cur_file, "function": cur_fn,
+                        "line": m.group(2) or "", "class": cls})
+    if "VERIFICATION SUCCESSFUL" in body:
+        status = "success"
+    elif "VERIFICATION FAILED" in body:
+        status = "failure"
+    for line in txt.splitlines():
+        if "ignoring" in line and ("forall" in line or "exists" in line):
+            msgs.append(line)
     return res, status, msgs
 
 
@@ -174,9 +184,9 @@ def run_unit(u, keep=False):
         if rc != 0:
             r["reason"] = "goto-instrument failed (rc=%d): %s" % (rc, log[-1500:])
             return r
-    c = cbmc_cmd(u, ["--json-ui"])
+    c = cbmc_cmd(u)
     r["cmds"].append(" ".join(c))
-    outp = os.path.join(wd, "cbmc.json")
+    outp = os.path.join(wd, "cbmc.out")
     rc, so, se, t = sh(c, u.timeout, wd, u.mem_gb, out=outp)
     r["t_cbmc"] = round(t, 2)
     if rc == -999:
